@@ -46,6 +46,10 @@ func (i *Ignore) load(rootGoitPath string) error {
 	scanner := fsutil.NewLineScanner(f)
 	for scanner.Scan() {
 		text := scanner.Text()
+		if text == "" {
+			// a blank line separates rules, it is not one: as a pattern it would match every directory
+			continue
+		}
 		var replacedText string
 		// the line is a literal path except for '*': quote every other regexp metacharacter
 		quotedText := strings.ReplaceAll(regexp.QuoteMeta(text), `\*`, ".*")
